@@ -118,6 +118,10 @@ def static_check(ctx, mode, total, extra="", select=None, oracle_relevant=None, 
                     kv = dict(x.split("=") for x in vl.split()[1:])
                     stats["sat_answers_validated"] = stats.get("sat_answers_validated", 0) + int(kv["sat_ok"])
                     stats["unsat_answers_seen"] = stats.get("unsat_answers_seen", 0) + int(kv["unsat"])
+                    stats["unsat_answers_confirmed_by_verified_dpll"] = stats.get("unsat_answers_confirmed_by_verified_dpll", 0) + int(kv.get("unsat_ok", 0))
+                    if int(kv.get("unsat_bad", 0)) > 0:
+                        ctx.violation("%s: a recorded UNSAT answer is wrong: the verified reference solver finds a model (hypothesis valid_oracle fails on this run)" % c.kind,
+                                      c.text(), found_input=True, key="badunsat")
                     if int(kv["sat_bad"]) > 0:
                         ctx.violation("%s: a recorded SAT model does not satisfy the clauses and assumptions of its call (the backend's answer is invalid: hypothesis valid_oracle fails on this run)" % c.kind,
                                       c.text(), found_input=True, key="badsat")
